@@ -1,7 +1,7 @@
 (* C15 — All dictionary back-ends agree, and fuzzy search returns true near matches.
    This file pins the statements; it contains nothing but `exact` (+ non-vacuity Examples). *)
-Require Import Base EditDistance DictModel Fuzzy EditDistanceProofs DictProofs.
-From Coq Require Import Permutation.
+Require Import Base EditDistance DictModel Fuzzy EditDistanceProofs DictProofs FuzzyProofs.
+From Coq Require Import Permutation Sorting.Sorted.
 
 (* ---------- the distance function ---------- *)
 (* the u8 two-row Wagner–Fischer of edit_distance.rs returns the Levenshtein distance whenever both
@@ -53,7 +53,7 @@ Print Assumptions C15_lev_len.
 Theorem C15_lev_metric : forall s t u,
   (lev s t = 0 <-> s = t) /\ lev s t = lev t s /\ lev s u <= lev s t + lev t u /\
   lev s t <= Nat.max (length s) (length t).
-Proof. exact (fun s t u => conj (lev_0_iff s t) (conj (lev_sym s t) (conj (lev_triangle s t u) (lev_le_max s t)))). Qed.
+Proof. exact lev_metric. Qed.
 Check C15_lev_metric : forall s t u,
   (lev s t = 0 <-> s = t) /\ lev s t = lev t s /\ lev s u <= lev s t + lev t u /\
   lev s t <= Nat.max (length s) (length t).
@@ -155,6 +155,187 @@ Check C15_merged_mutable_concat : forall is_lower lower dbg ms w,
   merged_exact (map (mut_ops is_lower lower dbg) ms) w = existsb (fun m => mut_exact is_lower lower m w) ms.
 Print Assumptions C15_merged_mutable_concat.
 
+(* ---------- fuzzy search: MutableDictionary ----------
+   with query and words of at most 254 characters the search neither panics nor overflows (debug or
+   release arithmetic), and what the model returns is one of the outcomes the unstable sort over the
+   hash-ordered candidates may produce *)
+Theorem C15_mutable_fuzzy_total : forall is_lower lower dbg m q d k,
+  wm_wf is_lower lower m ->
+  length (normalized q) <= 254 -> length (to_lower is_lower lower (normalized q)) <= 254 ->
+  (forall w, In w (mut_words m) -> length w <= 254) ->
+  exists r, mut_fuzzy is_lower lower dbg m q d k = Ok r /\ mut_fuzzy_outcome is_lower lower m q d k r.
+Proof. exact mut_fuzzy_total. Qed.
+Check C15_mutable_fuzzy_total : forall is_lower lower dbg m q d k,
+  wm_wf is_lower lower m ->
+  length (normalized q) <= 254 -> length (to_lower is_lower lower (normalized q)) <= 254 ->
+  (forall w, In w (mut_words m) -> length w <= 254) ->
+  exists r, mut_fuzzy is_lower lower dbg m q d k = Ok r /\ mut_fuzzy_outcome is_lower lower m q d k r.
+Print Assumptions C15_mutable_fuzzy_total.
+
+(* every such outcome: each result is a (non-empty) dictionary word carrying that word's metadata, its
+   distance is min(lev q' w, lev (lower q') w) <= d for the normalised query q'; results are ordered by
+   distance, at most k, no word twice; and complete up to the cap — a non-empty dictionary word within
+   the bound of q' (or of lower q' when that has the same length) is returned unless the result is
+   full of words that are at least as close *)
+Theorem C15_mutable_fuzzy : forall is_lower lower m q d k r,
+  wm_wf is_lower lower m -> mut_fuzzy_outcome is_lower lower m q d k r ->
+  let qn := normalized q in
+  let ql := to_lower is_lower lower qn in
+  (forall x, In x r ->
+     (exists e, In (word_id is_lower lower (r_word x), e) m /\ e_canon e = r_word x /\ e_meta e = r_meta x) /\
+     r_dist x = min_dist qn ql (r_word x) /\ r_dist x <= d /\ r_word x <> []) /\
+  StronglySorted (fun a b => r_dist a <= r_dist b) r /\ length r <= k /\
+  NoDup (map r_word r) /\
+  (forall k0 e, In (k0, e) m -> e_canon e <> [] ->
+     (lev qn (e_canon e) <= d \/ (length ql = length qn /\ lev ql (e_canon e) <= d)) ->
+     (exists x, In x r /\ r_word x = e_canon e) \/
+     (length r = k /\ forall x, In x r -> r_dist x <= min_dist qn ql (e_canon e))).
+Proof. exact mut_fuzzy_sound. Qed.
+Check C15_mutable_fuzzy : forall is_lower lower m q d k r,
+  wm_wf is_lower lower m -> mut_fuzzy_outcome is_lower lower m q d k r ->
+  let qn := normalized q in
+  let ql := to_lower is_lower lower qn in
+  (forall x, In x r ->
+     (exists e, In (word_id is_lower lower (r_word x), e) m /\ e_canon e = r_word x /\ e_meta e = r_meta x) /\
+     r_dist x = min_dist qn ql (r_word x) /\ r_dist x <= d /\ r_word x <> []) /\
+  StronglySorted (fun a b => r_dist a <= r_dist b) r /\ length r <= k /\
+  NoDup (map r_word r) /\
+  (forall k0 e, In (k0, e) m -> e_canon e <> [] ->
+     (lev qn (e_canon e) <= d \/ (length ql = length qn /\ lev ql (e_canon e) <= d)) ->
+     (exists x, In x r /\ r_word x = e_canon e) \/
+     (length r = k /\ forall x, In x r -> r_dist x <= min_dist qn ql (e_canon e))).
+Print Assumptions C15_mutable_fuzzy.
+
+(* ---------- fuzzy search: FstDictionary ----------
+   under the stream contract (for this dictionary's word list and this bound) the zip loop never
+   indexes out of range and the model's run is an admissible outcome *)
+Theorem C15_fst_fuzzy_total : forall stream f d,
+  (forall x, stream (f_words f) x d = spec_stream lev (f_words f) x d) ->
+  forall q lq k, exists r, fst_fuzzy stream f q lq d k = Ok r /\ fst_fuzzy_outcome stream f q lq d k r.
+Proof. exact fst_fuzzy_total. Qed.
+Check C15_fst_fuzzy_total : forall stream f d,
+  (forall x, stream (f_words f) x d = spec_stream lev (f_words f) x d) ->
+  forall q lq k, exists r, fst_fuzzy stream f q lq d k = Ok r /\ fst_fuzzy_outcome stream f q lq d k r.
+Print Assumptions C15_fst_fuzzy_total.
+
+(* every admissible outcome (whatever the unstable sorts do): each result is a word of the FST's list
+   with its metadata, its distance is lev q' w or lev lq w (lq = String::to_lowercase q') and <= d;
+   ordered, at most k, no word twice *)
+Theorem C15_fst_fuzzy : forall stream f d,
+  (forall x, stream (f_words f) x d = spec_stream lev (f_words f) x d) ->
+  forall q lq k r, fst_fuzzy_outcome stream f q lq d k r ->
+  (forall x, In x r ->
+     In (r_word x, r_meta x) (f_words f) /\
+     (r_dist x = lev (normalized q) (r_word x) \/ r_dist x = lev lq (r_word x)) /\ r_dist x <= d) /\
+  StronglySorted (fun a b => r_dist a <= r_dist b) r /\ length r <= k /\ NoDup (map r_word r).
+Proof. exact fst_fuzzy_sound. Qed.
+Check C15_fst_fuzzy : forall stream f d,
+  (forall x, stream (f_words f) x d = spec_stream lev (f_words f) x d) ->
+  forall q lq k r, fst_fuzzy_outcome stream f q lq d k r ->
+  (forall x, In x r ->
+     In (r_word x, r_meta x) (f_words f) /\
+     (r_dist x = lev (normalized q) (r_word x) \/ r_dist x = lev lq (r_word x)) /\ r_dist x <= d) /\
+  StronglySorted (fun a b => r_dist a <= r_dist b) r /\ length r <= k /\ NoDup (map r_word r).
+Print Assumptions C15_fst_fuzzy.
+
+(* for a lower-case query (lq = q') no word within the bound is missed, up to the cap *)
+Theorem C15_fst_fuzzy_complete : forall stream f d,
+  (forall x, stream (f_words f) x d = spec_stream lev (f_words f) x d) ->
+  forall q k r, fst_fuzzy_outcome stream f q (normalized q) d k r ->
+  forall w md, In (w, md) (f_words f) -> lev (normalized q) w <= d ->
+    (exists x, In x r /\ r_word x = w) \/
+    (length r = k /\ forall x, In x r -> r_dist x <= lev (normalized q) w).
+Proof. exact fst_fuzzy_complete. Qed.
+Check C15_fst_fuzzy_complete : forall stream f d,
+  (forall x, stream (f_words f) x d = spec_stream lev (f_words f) x d) ->
+  forall q k r, fst_fuzzy_outcome stream f q (normalized q) d k r ->
+  forall w md, In (w, md) (f_words f) -> lev (normalized q) w <= d ->
+    (exists x, In x r /\ r_word x = w) \/
+    (length r = k /\ forall x, In x r -> r_dist x <= lev (normalized q) w).
+Print Assumptions C15_fst_fuzzy_complete.
+
+(* why completeness is claimed for lower-case queries only: dictionary {"AB"}, query "AB", bound 0 — the
+   lower-case stream is empty, the positional zip pairs nothing, the result is empty although "AB" is
+   in the dictionary at distance 0 *)
+Theorem C15_fst_zip_incomplete : let f := fst_new ascii_is_lower ascii_lower [(w_AB, 1)] in
+  fst_fuzzy (spec_stream lev) f w_AB w_ab 0 10 = Ok [] /\
+  In (w_AB, 1) (f_words f) /\ lev (normalized w_AB) w_AB = 0 /\
+  fst_contains ascii_is_lower ascii_lower f w_AB = true.
+Proof. exact fst_zip_incomplete. Qed.
+Check C15_fst_zip_incomplete : let f := fst_new ascii_is_lower ascii_lower [(w_AB, 1)] in
+  fst_fuzzy (spec_stream lev) f w_AB w_ab 0 10 = Ok [] /\
+  In (w_AB, 1) (f_words f) /\ lev (normalized w_AB) w_AB = 0 /\
+  fst_contains ascii_is_lower ascii_lower f w_AB = true.
+Print Assumptions C15_fst_zip_incomplete.
+
+(* FC15a: FstDictionary::new called directly on two spellings of one id ("abc", "Abc"): the premise of
+   C15_fst_new_agrees fails, the exact queries differ from MutableDictionary's, and the fuzzy search
+   returns "Abc", which words_iter does not list, with metadata get_word_metadata contradicts *)
+Theorem C15_fst_new_collision_refuted : let ws := [(w_abc, 1); (w_Abc, 2)] in
+  let f := fst_new ascii_is_lower ascii_lower ws in
+  let m := mut_extend ascii_is_lower ascii_lower [] ws in
+  ~ NoDup (ids_of ascii_is_lower ascii_lower ws) /\
+  mut_exact ascii_is_lower ascii_lower m w_Abc = true /\ fst_exact ascii_is_lower ascii_lower f w_Abc = false /\
+  In (w_Abc, 2) (f_words f) /\ ~ In w_Abc (fst_words_iter f) /\
+  fst_meta ascii_is_lower ascii_lower f w_Abc = Some 1 /\
+  fst_fuzzy (spec_stream lev) f w_Abc w_abc 1 10 = Ok [mkfres w_Abc 0 2; mkfres w_abc 0 1].
+Proof. exact fst_new_collision. Qed.
+Check C15_fst_new_collision_refuted : let ws := [(w_abc, 1); (w_Abc, 2)] in
+  let f := fst_new ascii_is_lower ascii_lower ws in
+  let m := mut_extend ascii_is_lower ascii_lower [] ws in
+  ~ NoDup (ids_of ascii_is_lower ascii_lower ws) /\
+  mut_exact ascii_is_lower ascii_lower m w_Abc = true /\ fst_exact ascii_is_lower ascii_lower f w_Abc = false /\
+  In (w_Abc, 2) (f_words f) /\ ~ In w_Abc (fst_words_iter f) /\
+  fst_meta ascii_is_lower ascii_lower f w_Abc = Some 1 /\
+  fst_fuzzy (spec_stream lev) f w_Abc w_abc 1 10 = Ok [mkfres w_Abc 0 2; mkfres w_abc 0 1].
+Print Assumptions C15_fst_new_collision_refuted.
+
+(* ---------- fuzzy search: MergedDictionary ----------
+   a function of what the children return: their results concatenated, stably sorted by distance, cut at k *)
+Theorem C15_merged_fuzzy_spec : forall cs q lq d k rs,
+  Forall2 (fun c r => d_fuzzy c q lq d k = Ok r) cs rs ->
+  merged_fuzzy cs q lq d k = Ok (firstn k (isort dist_le (concat rs))) /\
+  topk_outcome r_dist (concat rs) k (firstn k (isort dist_le (concat rs))).
+Proof. exact merged_fuzzy_spec. Qed.
+Check C15_merged_fuzzy_spec : forall cs q lq d k rs,
+  Forall2 (fun c r => d_fuzzy c q lq d k = Ok r) cs rs ->
+  merged_fuzzy cs q lq d k = Ok (firstn k (isort dist_le (concat rs))) /\
+  topk_outcome r_dist (concat rs) k (firstn k (isort dist_le (concat rs))).
+Print Assumptions C15_merged_fuzzy_spec.
+
+(* hence only children's results, ordered, capped, and complete up to the cap whenever some child is *)
+Theorem C15_merged_fuzzy : forall (rs : list (list fres)) k r,
+  topk_outcome r_dist (concat rs) k r ->
+  (forall x, In x r -> exists ri, In ri rs /\ In x ri) /\
+  StronglySorted (fun a b => r_dist a <= r_dist b) r /\ length r <= k /\
+  (forall w dw, (exists ri, In ri rs /\ covers ri k w dw) -> covers r k w dw).
+Proof. exact merged_fuzzy_sound. Qed.
+Check C15_merged_fuzzy : forall (rs : list (list fres)) k r,
+  topk_outcome r_dist (concat rs) k r ->
+  (forall x, In x r -> exists ri, In ri rs /\ In x ri) /\
+  StronglySorted (fun a b => r_dist a <= r_dist b) r /\ length r <= k /\
+  (forall w dw, (exists ri, In ri rs /\ covers ri k w dw) -> covers r k w dw).
+Print Assumptions C15_merged_fuzzy.
+
+(* ---------- what the extracted driver relies on ----------
+   the functional two-row distance and the length-prefiltered stream it runs are the specification;
+   the bulk loads of the curated dictionary equal extend_words / FstDictionary::new when the ids are
+   pairwise distinct (and, for the FST, the list is already sorted) *)
+Theorem C15_driver_shortcuts : (forall s t, lev_fast s t = lev s t) /\
+  (forall ws x d, spec_stream_fast lev_fast ws x d = spec_stream lev ws x d) /\
+  (forall is_lower lower ws, NoDup (ids_of is_lower lower ws) ->
+     mut_extend is_lower lower [] ws = map (entry_of is_lower lower) ws) /\
+  (forall is_lower lower ws, adj_sorted ws = true -> NoDup (ids_of is_lower lower ws) ->
+     fst_new is_lower lower ws = mkfst (map (entry_of is_lower lower) ws) ws).
+Proof. exact driver_shortcuts. Qed.
+Check C15_driver_shortcuts : (forall s t, lev_fast s t = lev s t) /\
+  (forall ws x d, spec_stream_fast lev_fast ws x d = spec_stream lev ws x d) /\
+  (forall is_lower lower ws, NoDup (ids_of is_lower lower ws) ->
+     mut_extend is_lower lower [] ws = map (entry_of is_lower lower) ws) /\
+  (forall is_lower lower ws, adj_sorted ws = true -> NoDup (ids_of is_lower lower ws) ->
+     fst_new is_lower lower ws = mkfst (map (entry_of is_lower lower) ws) ws).
+Print Assumptions C15_driver_shortcuts.
+
 (* ---------- non-vacuity ---------- *)
 Example C15_wf_nonvacuous :
   let kitten := [107; 105; 116; 116; 101; 110]%N in
@@ -162,3 +343,31 @@ Example C15_wf_nonvacuous :
   length kitten <= 254 /\ length sitting <= 254 /\ lev kitten sitting = 3 /\
   wf_u8 true kitten sitting = Ok 3 /\ wf_u8 false kitten sitting = Ok 3 /\ lev_fast kitten sitting = 3.
 Proof. cbv zeta. repeat split; try (cbn; lia); vm_compute; reflexivity. Qed.
+
+(* quirks of the length window of MutableDictionary::fuzzy_match (outside the property's claim: the
+   query is not lower-case / the word is empty) *)
+Example C15_mutable_window_uses_query_length :
+  let w := [105; 775]%N in
+  let m := mut_extend ascii_is_lower dot_lower [] [(w, 1)] in
+  let q := [304]%N in
+  to_lower ascii_is_lower dot_lower (normalized q) = w /\ lev w w = 0 /\
+  mut_fuzzy ascii_is_lower dot_lower true m q 0 10 = Ok [].
+Proof. exact mut_window_uses_query_length. Qed.
+
+Example C15_mutable_window_skips_empty_word :
+  let m := mut_extend ascii_is_lower ascii_lower [] [([], 1)] in
+  lev [97%N] [] = 1 /\ mut_contains ascii_is_lower ascii_lower m [] = true /\
+  mut_fuzzy ascii_is_lower ascii_lower true m [97%N] 1 10 = Ok [].
+Proof. exact mut_window_skips_empty_word. Qed.
+
+(* the fuzzy theorems' hypotheses are satisfiable: a three-word dictionary through all three back-ends *)
+Example C15_fuzzy_nonvacuous :
+  let ws := [(w_abc, 1); (w_ab, 2); ([98%N], 3)] in
+  let m := mut_extend ascii_is_lower ascii_lower [] ws in
+  let f := fst_of_mutable ascii_is_lower ascii_lower m in
+  let q := [97; 98; 100]%N in
+  mut_fuzzy ascii_is_lower ascii_lower true m q 1 10 = Ok [mkfres w_abc 1 1; mkfres w_ab 1 2] /\
+  fst_fuzzy (spec_stream lev) f q q 1 10 = Ok [mkfres w_ab 1 2; mkfres w_abc 1 1] /\
+  merged_fuzzy [mut_ops ascii_is_lower ascii_lower true m; fst_ops ascii_is_lower ascii_lower (spec_stream lev) f] q q 1 3
+    = Ok [mkfres w_abc 1 1; mkfres w_ab 1 2; mkfres w_ab 1 2].
+Proof. exact fuzzy_example. Qed.
